@@ -40,13 +40,26 @@ package route
 
 // The canonical text of a segment / route (C06 gives the rendering its meaning; here only its shape matters).
 //@ uninterpreted reGroups(re *regexp.Regexp) int
+// C06: the canonical rendering. "/", "?" iff optional, literals verbatim, {bind}, {id: value, id: /regex/} with
+// exactly one blank after ':' and ','.
+//@ define valueStr(v BindParameterValue) string = ite(v.Literal != nil, *v.Literal, ite(v.Regex != nil, "/" + *v.Regex + "/", "???"))
+//@ define paramsStr(bp *BindParameters, k int) string = ite(k <= 0, "",
+//@     paramsStr(bp, k - 1) + bp.Parameters[k - 1].Ident + ": " + valueStr(bp.Parameters[k - 1].Value) + ite(len(bp.Parameters) > k, ", ", ""))
+//@ define elemStr(e SegmentElement) string = ite(e.Ident != nil, *e.Ident, ite(e.BindIdent != nil, "{" + *e.BindIdent + "}",
+//@     ite(e.BindParameters == nil || len(e.BindParameters.Parameters) == 0, "???", "{" + paramsStr(e.BindParameters, len(e.BindParameters.Parameters)) + "}")))
+//@ define segElemsR(s *Segment, k int) string = ite(k <= 0, "/" + ite(s.Optional, "?", ""), segElemsR(s, k - 1) + elemStr(s.Elements[k - 1]))
+//@ define segRender(s *Segment) string = segElemsR(s, len(s.Elements))
+//@ define routeSegs(r *Route, k int) string = ite(k <= 0, "", routeSegs(r, k - 1) + segStr(r.Segments[k - 1]))
+//@ define routeRender(r *Route) string = routeSegs(r, len(r.Segments))
+// Segments and routes are immutable once parsed: their canonical text is a function of the object. segStr/routeStr
+// name that text; the rendering functions are proved to compute segRender/routeRender of the current content.
 //@ uninterpreted segStr(s *Segment) string
 //@ uninterpreted routeStr(r *Route) string
-//@ axiom segStrShape: forall s *Segment :: len(segStr(s)) >= 1 && segStr(s)[0] == '/'
 
 // A segment's cached string, once computed, is its canonical text.
-//@ define segOK(s *Segment) bool = s.strOnce.fired ==> s.str == segStr(s)
-//@ define routeOK(r *Route) bool = r.strOnce.fired ==> r.str == routeStr(r)
+//@ define segOK(s *Segment) bool = s.strOnce.fired ==> s.str == segStr(s) && len(s.str) >= 1 && s.str[0] == '/'
+//@ define routeOK(r *Route) bool = (r.strOnce.fired ==> r.str == routeStr(r)) && (forall k int :: 0 <= k && k < len(r.Segments) ==> r.Segments[k] != nil)
+//@ define segsOK() bool = forall g *Segment :: live(g) ==> segOK(g)
 
 //@ define noSlash(s string) bool = forall j int :: 0 <= j && j < len(s) ==> s[j] != '/'
 // percent-decoding applied once to a captured value (left raw if it cannot be decoded)
@@ -67,15 +80,34 @@ package route
 //@     (forall g *Segment :: live(g) ==> segOK(g)) &&
 //@     (forall q *Route :: live(q) ==> routeOK(q))
 
-// Rendering (assumed here, C06 verifies the rendering functions against the canonical text)
-//@ trusted (*route.Segment).String(s) r
+// Rendering, verified against the canonical text. The cached string is written only inside sync.Once.Do.
+//@ func (*Segment).String
+//@   props C06 C05
+//@   assumes segStr(s) == segRender(s)
 //@   requires segOK(s)
 //@   modifies s.str, s.strOnce.fired
-//@   ensures r == segStr(s) && segOK(s)
-//@ trusted (*route.Route).String(r) res
-//@   requires routeOK(r)
-//@   modifies r.str, r.strOnce.fired
-//@   ensures res == routeStr(r) && routeOK(r)
+//@   ensures result == segStr(s) && segOK(s) && len(result) >= 1 && result[0] == '/'
+//@ func (*Segment).String$1
+//@   props C06
+//@   requires-captured s != nil
+//@   modifies s.str
+//@   ensures s.str == segRender(s) && len(s.str) >= 1 && s.str[0] == '/'
+//@   loop 0 invariant buf.content == segElemsR(s, rangeindex + 1) && len(buf.content) >= 1 && buf.content[0] == '/'
+//@   loop 1 invariant buf.content == segElemsR(s, rangeindex#0) + "{" + paramsStr(e.BindParameters, rangeindex#1 + 1) && len(buf.content) >= 1 && buf.content[0] == '/'
+//@   loop 1 invariant e == s.Elements[rangeindex#0] && e.Ident == nil && e.BindIdent == nil && e.BindParameters != nil && len(e.BindParameters.Parameters) > 0
+
+//@ func (*Route).String
+//@   props C06 C05
+//@   assumes routeStr(r) == routeRender(r)
+//@   requires routeOK(r) && segsOK()
+//@   modifies r.str, r.strOnce.fired, Segment.str, Segment.strOnce.fired
+//@   ensures result == routeStr(r) && routeOK(r) && segsOK()
+//@ func (*Route).String$1
+//@   props C06
+//@   requires-captured r != nil && (forall k int :: 0 <= k && k < len(r.Segments) ==> r.Segments[k] != nil) && segsOK()
+//@   modifies r.str, Segment.str, Segment.strOnce.fired
+//@   ensures r.str == routeRender(r) && segsOK()
+//@   loop 0 invariant buf.content == routeSegs(r, rangeindex + 1) && (forall k int :: 0 <= k && k < len(r.Segments) ==> r.Segments[k] != nil) && segsOK()
 
 // ---------------------------------------------------------------------------
 // C01 / C09: which leaf the matcher answers (declarative first-success search)
@@ -393,7 +425,7 @@ package route
 //@ func (*baseLeaf).SetHeaderMatcher
 //@   props C09
 //@   requires treeWF() && live(l)
-//@   modifies baseLeaf.headerMatcher, Route.str, Route.strOnce.fired
+//@   modifies baseLeaf.headerMatcher, Route.str, Route.strOnce.fired, Segment.str, Segment.strOnce.fired
 //@   ensures treeWF()
 //@   ensures l.headerMatcher == m
 //@   ensures forall x *baseLeaf :: live(x) ==> x.headerMatcher == old(x.headerMatcher) || x.headerMatcher == m
